@@ -322,7 +322,9 @@ func (table *Table) DelAggregator(id int) error {
 
 	agg := conf.aggregators[id]
 	fmt.Println("len", len(conf.aggregators))
-	conf.aggregators = append(conf.aggregators[:id], conf.aggregators[id+1:]...)
+	// copy on delete: Dispatch may still be iterating over the published slice, so leave its backing array alone
+	aggregators := append(conf.aggregators[:0:0], conf.aggregators[:id]...)
+	conf.aggregators = append(aggregators, conf.aggregators[id+1:]...)
 	fmt.Println("len", len(conf.aggregators))
 	agg.Shutdown()
 	table.config.Store(conf)
@@ -336,7 +338,9 @@ func (table *Table) DelBlacklist(index int) error {
 	if index >= len(conf.blacklist) {
 		return fmt.Errorf("Invalid index %d", index)
 	}
-	conf.blacklist = append(conf.blacklist[:index], conf.blacklist[index+1:]...)
+	// copy on delete: Dispatch may still be iterating over the published slice, so leave its backing array alone
+	blacklist := append(conf.blacklist[:0:0], conf.blacklist[:index]...)
+	conf.blacklist = append(blacklist, conf.blacklist[index+1:]...)
 	table.config.Store(conf)
 	return nil
 }
@@ -359,7 +363,9 @@ func (table *Table) DelRewriter(id int) error {
 		return fmt.Errorf("Invalid index %d", id)
 	}
 
-	conf.rewriters = append(conf.rewriters[:id], conf.rewriters[id+1:]...)
+	// copy on delete: Dispatch may still be iterating over the published slice, so leave its backing array alone
+	rewriters := append(conf.rewriters[:0:0], conf.rewriters[:id]...)
+	conf.rewriters = append(rewriters, conf.rewriters[id+1:]...)
 	table.config.Store(conf)
 	return nil
 }
@@ -382,7 +388,9 @@ func (table *Table) DelRoute(key string) error {
 		return nil
 	}
 
-	conf.routes = append(conf.routes[:toDelete], conf.routes[toDelete+1:]...)
+	// copy on delete: Dispatch may still be iterating over the published slice, so leave its backing array alone
+	routes := append(conf.routes[:0:0], conf.routes[:toDelete]...)
+	conf.routes = append(routes, conf.routes[toDelete+1:]...)
 	table.config.Store(conf)
 
 	err := route.Shutdown()
